@@ -215,6 +215,18 @@ func (c *Ctx) loudFromCut(start *ssa.BasicBlock, env *pathEnv, carried map[ssa.V
 				kinds["returns the error"] = true
 				return
 			}
+			// return logAndReturn(err, "..."): a helper of the repository that hands back the error it was given
+			if hc, ok := rv.(*ssa.Call); ok {
+				if sf := staticFn(&hc.Call); sf != nil && c.P.IsRepoFn(sf) {
+					for i, a := range hc.Call.Args {
+						ar := e.resolve(a)
+						if (carried[a] || carried[ar] || e.nilnessOf(a) == nonNil) && i < len(sf.Params) && returnsParamOrNonNil(sf, sf.Params[i]) {
+							kinds["returns the error (through "+load.FnName(sf)+")"] = true
+							return
+						}
+					}
+				}
+			}
 			switch e.nilnessOf(op) {
 			case nonNil:
 				kinds["returns a non-nil error"] = true
@@ -234,6 +246,54 @@ func (c *Ctx) loudFromCut(start *ssa.BasicBlock, env *pathEnv, carried map[ssa.V
 		ks = append(ks, k)
 	}
 	return ok, strings.Join(sortStrings(ks), ", "), offending
+}
+
+// returnsParamOrNonNil: every return of fn yields its parameter p, a wrapping of it
+// (fmt.Errorf with p as an argument) or a freshly constructed error, at the error result.
+func returnsParamOrNonNil(fn *ssa.Function, p *ssa.Parameter) bool {
+	if len(fn.Blocks) == 0 {
+		return false
+	}
+	ok, n := true, 0
+	allInstrs(fn, func(in ssa.Instruction) {
+		r, isRet := in.(*ssa.Return)
+		if !isRet {
+			return
+		}
+		op := retErrOperand(r)
+		if op == nil {
+			ok = false
+			return
+		}
+		n++
+		var good func(v ssa.Value, d int) bool
+		good = func(v ssa.Value, d int) bool {
+			if d > 3 {
+				return false
+			}
+			switch x := v.(type) {
+			case *ssa.Parameter:
+				return x == p
+			case *ssa.Phi:
+				for _, e := range x.Edges {
+					if !good(e, d+1) {
+						return false
+					}
+				}
+				return true
+			case *ssa.MakeInterface:
+				return true // a constructed error value
+			case *ssa.Call:
+				f := staticCallee(&x.Call)
+				return isFn(f, "fmt", "Errorf") || isFn(f, "errors", "New") || isFn(f, "errors", "Join")
+			}
+			return false
+		}
+		if !good(op, 0) {
+			ok = false
+		}
+	})
+	return ok && n > 0
 }
 
 func sortStrings(s []string) []string {
